@@ -162,6 +162,8 @@ var pathGens = map[string]func(n int) string{
 	"nbsp-run":           func(n int) string { return rep(" ", n) + "a" },
 	"crlf-run":           func(n int) string { return "a" + rep("\r\n", n) + "+" },
 	"lone-continuation":  func(n int) string { return rep("\x85", n) },
+	"nul-after-formula":  func(n int) string { return "a + b" + rep("\x00", n) + " ) ) ] 'open" },
+	"nul-run":            func(n int) string { return rep("\x00", n) },
 }
 
 func pathSizes() []int {
